@@ -2,8 +2,11 @@
 // are valid, conflicts mean infeasibility, and a relation literal means exactly its relation.
 //
 // Two real variables x, y.  A scenario (concrete, enumerated by the driver):
-//   NR, NR x (rel, c1, c2, kn, kd)      relation requests  c1*x + c2*y  REL  kn/kd   (rel: 0 <, 1 <=, 2 =, 3 >=, 4 >)
+//   NR, NR x (rel, c1, c2, kn, kd, e)   relation requests  (c1+e)*x + (c2+e)*y  REL  e*x + e*y + kn/kd   (e != 0: variables that cancel)   (rel: 0 <, 1 <=, 2 =, 3 >=, 4 >;  rel + 10: deferred,
+//                                       the request is only made when the history reaches its `request` step)
 //   H,  H x (op, r, sign)               0 assume(lit_r / !lit_r)  1 pop  2 assert at root (unit clause + propagate)  3 check({lit})
+//                                       4 request relation r now (root level only; C11: a literal requested after bounds were tightened)
+//                                       5 root clause (lit_r or its negation) | (lit_r2 or its negation), sign = s1 + 2*s2 + 4*r2
 // symbolic: the point (X, Y) in [-R, R]^2 (integers; the constants are integers or halves, so strict and non-strict
 // relations are told apart) and a total assignment of the SAT variables.  Checks after every call:
 //   (V) concrete: every asserted assertion holds for the reported values (strict ones through the infinitesimal part), every
@@ -105,14 +108,16 @@ static void check_state(sat_core &s, lra_theory &th)
   bool link = !a[0];
   for (const auto &va : th.v_asrts) link = link & (lval(va.second->b) == holds(va.second));
   size_t ci = 0;
-  bool defs = true;
+  bool defs = true; // definitional clauses and root-level assignments (conflict analysis drops root-level literals from learnt clauses)
+  for (size_t v = 1; v < s.assigns.size(); v++)
+    if (s.assigns[v] != Undefined && s.level[v] == 0) defs = defs & (a[v] == (s.assigns[v] == True));
   for (auto c : s.constrs)
   {
     clause *k = static_cast<clause *>(c);
     bool sat = false;
     for (auto &l : k->lits) sat = sat | lval(l);
     if (ci < n_defs) defs = defs & sat;
-    else CHECK(!(link && defs) || sat, "(L) every learnt clause / explanation is valid under the meaning of the assertion literals");
+    else CHECK(!(link && defs) || sat, "(L) every learnt clause / explanation is valid under the meaning of the assertion literals and the root-level assignments");
     ci++;
   }
   bool rest = true; // all stored clauses, root assignments and standing decisions
@@ -161,14 +166,14 @@ __attribute__((noinline)) static void scenario()
   const var x = th.new_var(), y = th.new_var();
   cx[0] = 1; cy[0] = 0; cx[1] = 0; cy[1] = 1; ntv = 2;
   const int NR = rdp();
-  size_t rl[MAXR]; int rrel[MAXR], rc1[MAXR], rc2[MAXR], rkn[MAXR], rkd[MAXR];
-  for (int i = 0; i < NR; i++)
+  size_t rl[MAXR]; int rrel[MAXR], rc1[MAXR], rc2[MAXR], rkn[MAXR], rkd[MAXR], rex[MAXR]; bool made[MAXR];
+  auto request = [&](int i)
   {
-    rrel[i] = rdp(); rc1[i] = rdp(); rc2[i] = rdp(); rkn[i] = rdp(); rkd[i] = rdp();
     lin left;
-    if (rc1[i]) left.vars.emplace(x, rational(rc1[i]));
-    if (rc2[i]) left.vars.emplace(y, rational(rc2[i]));
-    const lin right(rational(rkn[i], rkd[i]));
+    if (rc1[i] + rex[i]) left.vars.emplace(x, rational(rc1[i] + rex[i]));
+    if (rc2[i] + rex[i]) left.vars.emplace(y, rational(rc2[i] + rex[i]));
+    lin right(rational(rkn[i], rkd[i]));
+    if (rex[i]) { right.vars.emplace(x, rational(rex[i])); right.vars.emplace(y, rational(rex[i])); }
     // bounds visible before the request
     inf_rational lb0[MAXTV], ub0[MAXTV]; const size_t nb = th.vals.size();
     for (size_t v = 0; v < nb; v++) { lb0[v] = th.lb(v); ub0[v] = th.ub(v); }
@@ -181,22 +186,33 @@ __attribute__((noinline)) static void scenario()
     case 3: r = th.new_geq(left, right); break;
     default: r = th.new_gt(left, right); break;
     }
-    rl[i] = index(r);
+    rl[i] = index(r); made[i] = true;
     note_new_vars(th, rc1[i], rc2[i]);
     CHECK(s.assigns.size() <= MAXV, "harness bound on SAT variables");
     for (size_t v = 0; v < nb; v++) CHECK(th.lb(v) == lb0[v] && th.ub(v) == ub0[v], "(R) requesting a literal leaves every earlier bound unchanged");
+  };
+  auto meaning = [&]()
+  { // (R) meaning of every literal requested so far
+    if (premise(s, th))
+      for (int i = 0; i < NR; i++)
+      {
+        if (!made[i]) continue;
+        const long lhs = ((long)rc1[i] * X + (long)rc2[i] * Y) * rkd[i], rhs = rkn[i]; // compare lhs/kd with kn/kd
+        bool rel;
+        switch (rrel[i]) { case 0: rel = lhs < rhs; break; case 1: rel = lhs <= rhs; break; case 2: rel = lhs == rhs; break; case 3: rel = lhs >= rhs; break; default: rel = lhs > rhs; break; }
+        CHECK(lval(lit(rl[i] >> 1, rl[i] & 1)) == rel, "(R) a relation literal is true exactly when its relation holds");
+      }
+  };
+  for (int i = 0; i < NR; i++)
+  {
+    rrel[i] = rdp(); rc1[i] = rdp(); rc2[i] = rdp(); rkn[i] = rdp(); rkd[i] = rdp(); rex[i] = rdp();
+    made[i] = false; rl[i] = 0;
+    if (rrel[i] >= 10) rrel[i] -= 10; else request(i);
   }
-  // (R) meaning of every requested literal
-  if (premise(s, th))
-    for (int i = 0; i < NR; i++)
-    {
-      const long lhs = ((long)rc1[i] * X + (long)rc2[i] * Y) * rkd[i], rhs = rkn[i]; // compare lhs/kd with kn/kd
-      bool rel;
-      switch (rrel[i]) { case 0: rel = lhs < rhs; break; case 1: rel = lhs <= rhs; break; case 2: rel = lhs == rhs; break; case 3: rel = lhs >= rhs; break; default: rel = lhs > rhs; break; }
-      CHECK(lval(lit(rl[i] >> 1, rl[i] & 1)) == rel, "(R) a relation literal is true exactly when its relation holds");
-    }
+  meaning();
   n_defs = s.constrs.size();
   bool alive = true;
+  inf_rational snap_lb[4][MAXTV], snap_ub[4][MAXTV]; size_t snap_n[4] = {0, 0, 0, 0}, snap_cl[4] = {~0ul, ~0ul, ~0ul, ~0ul}, snap_tr[4] = {0, 0, 0, 0};
   if (!s.propagate()) { check_unsat(s, th, nullptr); alive = false; }
   else check_state(s, th);
   const int H = rdp();
@@ -204,19 +220,63 @@ __attribute__((noinline)) static void scenario()
   {
     const int op = rdp(), ri = rdp(), sg = rdp();
     if (!alive) continue;
+    if (op == 4)
+    { // late request (root level): the literal must still mean its relation, whatever the bounds are by now
+      if (!s.root_level() || !s.prop_q.empty() || made[ri]) continue;
+      request(ri);
+      n_defs = s.constrs.size();
+      meaning();
+      if (!s.propagate()) { check_unsat(s, th, nullptr); alive = false; }
+      else check_state(s, th);
+      continue;
+    }
+    if (op == 5)
+    { // binary clause between two relation literals at root level: ONE later decision then tightens several bounds in one level
+      const int s1 = sg & 1, s2 = (sg >> 1) & 1, r2 = sg >> 2;
+      if (!made[ri] || !made[r2] || !s.root_level() || !s.prop_q.empty()) continue;
+      lit l1(rl[ri] >> 1, rl[ri] & 1), l2(rl[r2] >> 1, rl[r2] & 1);
+      if (!s1) l1 = !l1;
+      if (!s2) l2 = !l2;
+      if (!s.new_clause({l1, l2}) || !s.propagate())
+      {
+        bool ok = !a[0] && (lval(l1) || lval(l2));
+        for (const auto &va : th.v_asrts) ok = ok & (lval(va.second->b) == holds(va.second));
+        for (auto c : s.constrs) { clause *k = static_cast<clause *>(c); bool sat = false; for (auto &l : k->lits) sat = sat | lval(l); ok = ok & sat; }
+        for (size_t v = 1; v < s.assigns.size(); v++) if (s.assigns[v] != Undefined && s.level[v] == 0) ok = ok & (a[v] == (s.assigns[v] == True));
+        CHECK(!ok, "(C) a clause is refused only if no point satisfies the root-level constraints together with it");
+        alive = false;
+      }
+      else { n_defs = s.constrs.size(); check_state(s, th); } // the scenario's own clause is a premise like the definitional ones (nothing was learnt at root level in between)
+      continue;
+    }
+    if (!made[ri]) continue;
     lit l(rl[ri] >> 1, rl[ri] & 1);
     if (!sg) l = !l;
     const bool constant = variable(l) == FALSE_var;
     switch (op)
     {
     case 0:
+    {
       if (constant || s.value(l) != Undefined || !s.prop_q.empty()) break;
+      const size_t lv = s.decision_level();
+      if (lv < 4)
+      { // C08: snapshot of every bound before the decision
+        snap_n[lv] = th.vals.size(); snap_cl[lv] = s.constrs.size(); snap_tr[lv] = s.trail.size();
+        for (size_t v = 0; v < th.vals.size() && v < MAXTV; v++) { snap_lb[lv][v] = th.lb(v); snap_ub[lv][v] = th.ub(v); }
+      }
       if (!s.assume(l)) { check_unsat(s, th, nullptr); alive = false; }
       else check_state(s, th);
       break;
+    }
     case 1:
       if (s.root_level()) break;
       s.pop();
+      {
+        const size_t lv = s.decision_level();
+        if (lv < 4 && snap_cl[lv] == s.constrs.size() && snap_tr[lv] == s.trail.size() && snap_n[lv] == th.vals.size())
+          for (size_t v = 0; v < th.vals.size() && v < MAXTV; v++)
+            CHECK(th.lb(v) == snap_lb[lv][v] && th.ub(v) == snap_ub[lv][v], "(C08) pop restores every bound to its value before the undone decision");
+      }
       if (!s.propagate()) { check_unsat(s, th, nullptr); alive = false; } // values are repaired lazily by the next check()
       else check_state(s, th);
       break;
